@@ -771,6 +771,23 @@ def _r5(repo, L, m, ba):
         return
     sv = outer[0].target.id
     inner = [n for n in outer[0].body if isinstance(n, ast.For)]
+    # no input scaffold is skipped as a whole (other than an empty one): every skip statement of the outer loop body
+    # that is not inside the per-fragment loop must be control dependent on the scaffold having no rows
+    oks, whys = True, ""
+    for x in walk_shallow(outer[0]):
+        if isinstance(x, ast.Continue | ast.Break | ast.Return) and not any(contains(i_, x) for i_ in inner):
+            guards = [a for a in ancestors(x) if isinstance(a, ast.If) and contains(outer[0], a)]
+            benign_skip = False
+            for g in guards:
+                side = any(x is s_ or contains(s_, x) for s_ in g.body)
+                for t, v in cond_facts(g.test, side):
+                    if norm(t).replace(" ", "") in (f"{sv}.rows", f"len({sv}.rows)") and v is False:
+                        benign_skip = True
+            if not benign_skip and not isinstance(x, ast.Return | ast.Break) or (isinstance(x, ast.Return | ast.Break)):
+                if not benign_skip:
+                    conds = [norm(g.test)[:60] for g in guards]
+                    oks, whys = False, f"an input scaffold is skipped as a whole ({type(x).__name__.lower()} under {conds or 'no condition'}): contigs of it that no lookup returned are never re-added (lost)"
+    L.check(oks, "R5", addm.short + ":no-scaffold-skip", "no input scaffold is skipped as a whole", whys, addm.loc(), witness={"input": "a scaffold the Pretext map covers only in part (texel-snapped tail contig)"})
     ok = len(inner) == 1 and norm(inner[0].iter) in (f"{sv}.idx_fragments()", f"enumerate({sv}.rows)")
     L.check(ok, "R5", addm.short + ":fragments", "every fragment row visited", "re-add does not visit every fragment of an input scaffold", addm.loc())
     if not ok:
@@ -830,6 +847,9 @@ def _r5(repo, L, m, ba):
 
 def _r6(repo, L, m, ba):
     fuse = m["scaffolds_fused_by_name"]
+    from .keys import fuse_site
+
+    fuse_site(repo)  # the rules below are written for the one-pass form; any other form is "no verdict"
     loops = [n for n in fuse.node.body if isinstance(n, ast.For)]
     if len(loops) < 1 or norm(loops[0].iter) != "self.scaffolds":
         L.fail("R6", fuse.short, "fuse loop does not iterate over every build scaffold", fuse.loc())
